@@ -1,14 +1,14 @@
 SPECIFICATION Spec
 CONSTANTS
   Idx <- MCIdx
-  KeysOf <- MCKeysOf
-  PfxOf <- MCPfxOf
+  KeysOf <- MCKeysOfT
+  PfxOf <- MCPfxOfT
   Vals = {1}
   FVals = {0, 2}
-  SVals = {0, 1}
+  SVals = {1}
   VecIdx = {0}
   MaxPend = 1
-  Mode = "field"
+  Mode = "index"
 VIEW DesignView
-INVARIANTS TypeOK
+INVARIANTS TypeOK IterContract FirstLastContract
 PROPERTIES BatchOK FrameOK
